@@ -42,6 +42,11 @@ VALS = ["v%d" % i for i in range(6)] + ['j:{"x":1}', "j:[1,2]", "j:null", "j:tru
                                         'j:{"Cas":[1,2]}', "j:[]", "line\nbreak", "sp ace/sl?sh#"]
 
 
+# values an import file cannot carry faithfully as PLAIN entries (they are read as a CAS entry
+# resp. as "no value", see D_CAS_SHAPED / D_NULL_RELOAD): not used inside import trees
+IMPORT_VALS = [v for v in VALS if "Cas" not in v and v != "j:null"]
+
+
 def rnd_tree(rnd, pool):
     nodes = {(): {"k": "none", "v": "", "n": 0}}
     for _ in range(rnd.randint(1, 4)):
@@ -49,9 +54,9 @@ def rnd_tree(rnd, pool):
         for i in range(len(k)):
             nodes.setdefault(k[:i], {"k": "none", "v": "", "n": 0})
         if rnd.random() < 0.5:
-            nodes[k] = {"k": "plain", "v": rnd.choice(VALS), "n": 0}
+            nodes[k] = {"k": "plain", "v": rnd.choice(IMPORT_VALS), "n": 0}
         else:
-            nodes[k] = {"k": "cas", "v": rnd.choice(VALS), "n": rnd.choice([0, 1, 2, 3, 7, 50])}
+            nodes[k] = {"k": "cas", "v": rnd.choice(IMPORT_VALS), "n": rnd.choice([0, 1, 2, 3, 7, 50])}
     return [{"p": list(p), "e": e} for p, e in sorted(nodes.items())]
 
 
@@ -251,3 +256,35 @@ def enum_c04(depth, nfiles=8):
         w += [{"op": "pget", "pat": p}, {"op": "pdelete", "pat": p, "c": "c2", "probe": True}, {"op": "pget", "pat": ["#"]}]
         files[i % nfiles].append(w)
     return {"hdr": True, "meaning": {}, "proj": False}, files, len(pats), len(keys)
+
+
+def gen_c09(rnd, n):
+    """stores of every shape, registrations of several clients, restarts in all three layouts"""
+    base = gen_mixed({"connect": 3, "gg": 5, "lw": 5, "set": 30, "cset": 14, "delete": 6, "pdelete": 4, "import": 3,
+                      "disconnect": 1}, nclients=3, need_connect=True)
+    hdr, reqs = base(rnd, n)
+    # last wills of different clients must not race for the same key at load time (their
+    # order of application is unspecified): give every last-will token its own keys
+    for i in range(5):
+        hdr["meaning"]["lw%d" % i] = {"gg": [], "lw": [{"k": ["lwk", "t%d" % i, "k%d" % j], "v": "w%d" % rnd.randint(0, 3)}
+                                                         for j in range(rnd.randint(1, 3))]}
+    shaped = {'j:{"Cas":[1,2]}': {"gg": [], "lw": [], "cas": {"v": "j:1", "n": 2}},
+              'j:{"Cas":["v1",2]}': {"gg": [], "lw": [], "cas": {"v": "v1", "n": 2}},
+              'j:{"Cas":[{"x":1},0]}': {"gg": [], "lw": [], "cas": {"v": 'j:{"x":1}', "n": 0}},
+              'j:{"Cas":["v3",1000000]}': {"gg": [], "lw": [], "cas": {"v": "v3", "n": 1000000}}}
+    hdr["meaning"].update(shaped)
+    out = []
+    for r in reqs:
+        # the order in which the grave goods of DIFFERENT clients are applied at load time is
+        # unspecified (HashMap iteration) and matters once the tree holds a value-less node
+        # (D_NULL_RELOAD): only c1 registers grave goods here, the others register last wills
+        if r["op"] == "set" and r["key"][:2] == ["$SYS", "clients"] and r["key"][-1] == "graveGoods" and r["c"] != "c1":
+            r = dict(r, key=r["key"][:3] + ["lastWill"], val="lw%d" % rnd.randint(0, 4))
+        if r["op"] in ("set", "cset") and r["key"][0] != "$SYS" and rnd.random() < 0.08:
+            r = dict(r, val=rnd.choice(list(shaped)))
+        out.append(r)
+        if rnd.random() < 0.04:
+            out.append({"op": "restart", "layout": rnd.choice(["v3", "v3", "v2", "v1"]), "toggle": rnd.random() < 0.5})
+    # after a restart no client is connected: the generator's bookkeeping of connected clients is
+    # stale, which only means requests by unconnected ids (the core does not mind)
+    return hdr, out
